@@ -38,10 +38,34 @@ def known_names():
         for p in glob.glob(os.path.join(here, "*.py")) + glob.glob(os.path.join(here, "rules", "*.py")):
             if os.path.basename(p) == "inline.py":
                 continue
-            with open(p) as fh:
-                words |= set(re.findall(r"[A-Za-z_][A-Za-z0-9_]*", fh.read()))
+            words |= _code_words(p)
         _KNOWN = words
     return _KNOWN
+
+def _code_words(path):
+    """identifiers in the code and string literals of a rule source.  Comments and docstrings do not count: they name
+    helpers as *examples* of what a rule looks through (`emit_value(..)`), and such a mention must not turn the helper
+    into an anchor that stays a call."""
+    import io
+    import tokenize
+    words = set()
+    with open(path, "rb") as fh:
+        toks = list(tokenize.tokenize(fh.readline))
+    prev_sig = None
+    for i, t in enumerate(toks):
+        if t.type == tokenize.NAME:
+            words.add(t.string)
+        elif t.type == tokenize.STRING:
+            nxt = next((x for x in toks[i + 1:] if x.type not in (tokenize.COMMENT, tokenize.NL)), None)
+            stmt_start = prev_sig is None or prev_sig.type in (tokenize.NEWLINE, tokenize.INDENT, tokenize.DEDENT, tokenize.ENCODING)
+            if stmt_start and nxt is not None and nxt.type == tokenize.NEWLINE:
+                pass                                  # a docstring / bare string statement
+            else:
+                words |= set(re.findall(r"[A-Za-z_][A-Za-z0-9_]*", t.string))
+        if t.type not in (tokenize.COMMENT, tokenize.NL):
+            prev_sig = t
+    return words
+
 
 _PLACE_KEYS = ({"l"}, {"l", "p"})
 
